@@ -13,6 +13,19 @@ claimed = {
  "C03": dict(engine="scan", level="exploration", technique="deterministic simulation: seeded search over worlds and next()/max() interleavings against a brute-force score table",
    text="Same worlds as C02; the caller program is k next() calls followed by max(). Oracle: with U = expected hits not yet returned, max() is None iff U is empty, otherwise the returned position is in range, not already consumed, carries its exact score, meets the threshold and equals the maximum over U (ties: any maximal position). Generators plant consensus and near-consensus words so that several positions have near-equal scores that 8-bit rounding reorders.",
    note="Trusted: as C02. Floating point: exact-arithmetic matrices (entries k/8) are compared strictly; otherwise a returned score within 2*M*2^-24*sum|term| of the maximum is accepted and counted as tolerated.", ref="DESIGN.md section 4 C03"),
+
+ "C04": dict(engine="stripe", level="exploration", technique="deterministic simulation: seeded search over operation histories on one long-lived striped buffer (simulated host CPU, poisoning / moving allocator) against a reference model, whole-matrix comparison after every operation",
+   text="Seeded deterministic simulation of one long-lived StripedSequence<A, C> (DNA and protein, C in {1,2,4,16,32}) through histories of stripe_into / stripe (generic, AVX2, dispatched), to_striped, configure_wrap (growing, shrinking, repeated, larger than the row count), configure, clone, Index and symbol counts, on a simulated host CPU and under an allocator that poisons fresh (0xA5) and freed (0x5A) memory and always moves on growth. After every operation the whole matrix, len, wrap, Index and counts are compared with a (Vec<Symbol>, wrap) reference model; plus every length 0..4200 for each backend.",
+   note="Trusted: the reference model of section 4 C04 of DESIGN.md (look-ahead cell = symbol of linear index c*R+R+k, wildcard beyond L or beyond the last column). Weaker adversary than a stream or RNG seam: host CPU, allocator and operation order.", ref="DESIGN.md section 4 C04"),
+ "C06": dict(engine="mem", level="exploration", technique="deterministic simulation with an adversarial allocator seam: every heap block in its own pages flush against an inaccessible page (guard-end / guard-start), freed blocks unmapped, exact alignment + poison; a trap in a single-threaded worker is attributed to the run in flight",
+   text="The workloads of the scan, stripe, gibbs and dense simulators and a direct-call generator over the safe public API (encode, stripe, configure, f32 / u8 scoring with row sub-ranges, max / argmax / threshold, clone; DNA and protein; explicit generic / SSE2 / AVX2 pipelines and the dispatcher under three simulated host profiles) run with every heap block - argument buffers included - in its own pages, flush against a PROT_NONE page after its end or before its start, freed blocks unmapped until the run ends. One byte outside a live block, any touch of a freed block or a misaligned aligned move is a SIGSEGV attributed to the announced run, confirmed and minimised in fresh processes. The thorough tier adds every length for AVX2 / dispatched striping.",
+   note="Trusted: the kernel's page protection. Not covered: out-of-bounds inside the same block (left to value oracles), stack and global objects, NEON code (not compiled on x86-64). Miri cannot execute the SSE2/AVX2 kernels (sfence unsupported).", ref="DESIGN.md section 4 C06"),
+ "C16": dict(engine="gibbs", level="exploration", technique="deterministic simulation with an RNG seam: recorded PRNG stream with sparse forced extreme draws, simulated host CPU and allocator; invariants recomputed from the reported alignment after every step; trace equality across re-execution",
+   text="Seeded deterministic simulation of the Gibbs sampler behind an RNG seam (rand_core::RngCore): recorded draws, sparse forced values 0 / u64::MAX / repeat, OOPS and ZOOPS modes, DNA and protein, planted motifs and wildcard symbols near sequence ends, simulated host CPU, poisoning allocator. After the constructor and after every next(): count matrix, sequence count, background, start + width <= length, iteration counts and iteration scoring matrix equal a recomputation from the reported alignment; step counter; once None always None; the whole run is executed twice and the traces are identical.",
+   note="Trusted: the harness's recomputation of window and background counts; the library's own to_freq / into_scoring for the iteration scoring matrix. Out of contract: datasets whose alignment without the held-out sequence would be empty.", ref="DESIGN.md section 4 C16"),
+ "C19": dict(engine="dense", level="exploration", technique="deterministic simulation: seeded search over operation histories under an adversarial allocator (exact alignment, poison, move-on-grow) against a Vec<Vec<T>> reference model",
+   text="Seeded deterministic simulation of DenseMatrix<T, C> (T in {u8,u32,f32,i64}, C in {1,5,7,16,21,32,43}) through histories of new / with_capacity / from_rows / uninitialized+write / resize / reserve / row, cell and coordinate writes / fill / clone / equality by another construction route with different padding / inequality / forward, reverse, mutable and by-reference iteration, under an allocator that returns addresses aligned exactly as requested and never more, poisons fresh and freed memory and moves on every growth. After every operation: row count, stride, 32-byte row alignment and every cell against the model.",
+   note="Trusted: the Vec<Vec<T>> model. The alignment claim is checked against what the type's layout requests from the allocator, which is the point: under the system allocator over-alignment is luck.", ref="DESIGN.md section 4 C19"),
 }
 na = {
  "C01":"pure function of (matrix, sequence, row range, backend): no schedule, fault, clock, stream or stateful history for a simulator to control",
@@ -26,7 +39,7 @@ na = {
  "C13":"pure numerical algorithm",
  "C17":"stateless wrappers around pure functions; its stream slice is simulated under C14/C15 and its view slice under C18",
 }
-pending = {"C04":"stripe","C06":"mem","C16":"gibbs","C18":"pyview","C19":"dense"}
+pending = {"C18":"pyview"}
 import sys
 done = set(sys.argv[1:]) if len(sys.argv)>1 else set()
 checks=[]
@@ -55,7 +68,7 @@ m={
           "baseline_off_cmd":"cd /repo && cargo test --workspace --no-fail-fast --offline",
           "source_commits":["ca8be19"],
           "add_only":True},
- "engines":[{"name":"scan","path":"/verif/sim/src/sims/scan.rs","serves_properties":["C02","C03"],"kind_free_text":"deterministic simulation of the block scanner in a simulated world: host CPU profile, block-size knob, allocator policy, caller program"},{"name":"stream","path":"/verif/sim/src/sims/stream","serves_properties":["C14","C15"],"kind_free_text":"deterministic simulation of the motif-file readers over a simulated byte source (chunk schedules, EINTR, truncation, corruption, hard I/O errors)"}],
+ "engines":[{"name":"stripe","path":"/verif/sim/src/sims/stripe.rs","serves_properties":["C04"],"kind_free_text":"deterministic simulation of a long-lived striped sequence buffer: operation histories x host CPU x allocator"},{"name":"mem","path":"/verif/sim/src/sims/mem.rs","serves_properties":["C06"],"kind_free_text":"all workloads under guard-page / poison allocators; traps attributed to the run in flight"},{"name":"gibbs","path":"/verif/sim/src/sims/gibbs.rs","serves_properties":["C16"],"kind_free_text":"deterministic simulation of the Gibbs sampler behind an RNG seam with forced draws"},{"name":"dense","path":"/verif/sim/src/sims/dense.rs","serves_properties":["C19"],"kind_free_text":"deterministic simulation of DenseMatrix operation histories under an adversarial allocator"},{"name":"scan","path":"/verif/sim/src/sims/scan.rs","serves_properties":["C02","C03"],"kind_free_text":"deterministic simulation of the block scanner in a simulated world: host CPU profile, block-size knob, allocator policy, caller program"},{"name":"stream","path":"/verif/sim/src/sims/stream","serves_properties":["C14","C15"],"kind_free_text":"deterministic simulation of the motif-file readers over a simulated byte source (chunk schedules, EINTR, truncation, corruption, hard I/O errors)"}],
  "checks":checks,
  "not_applicable":nas,
  "notes":"Deterministic simulation with fault injection; see DESIGN.md. Exit codes: 0 held, 1 VIOLATION, 2 harness error. Genuine defects found and repaired are listed in KNOWN_FINDINGS.txt (fixed: lines).",
